@@ -4,7 +4,11 @@
   (2) y[n] = x[n−d] ⇒ Hxy = e^{−iωd}(1+ε): a lagging output has NEGATIVE phase; |ε| is bounded per bin by the proved delay
                       decomposition evaluated numerically (window differences + edge sums, generalised to the detrended window);
   (3) numba / numpy / CUDA(simulator) give the same XX, YY, XY (in particular the same sign of Im XY);
-  (4) the same through `compute_single_bin`.
+  (4) the same through `compute_single_bin`;
+  (5) the same beyond every size threshold: the product K·L of one bin, K alone, L alone and the record length N alone are taken across every
+      integer constant of the CURRENT core.py / analysis.py (vk.common.mined_sizes) and across 2^16, 2^20, 70 001, 1 100 003 (c-1, c, c+1, c+17,
+      2c+3), on the NumPy AND the Numba backend (and their agreement), orders -1 … 2, g in {-2.5, 0.3}, d in {1, 5}: single bins with an explicit
+      L and the overlap that gives the wanted K, and band-limited `compute_spectrum` on a record of ~600 000 samples (`size_stream`).
 """
 from __future__ import annotations
 
@@ -53,11 +57,17 @@ ASSUMPTIONS = ["rounding and fastmath re-association are covered by the stated f
                "`segDFT_effWin`, `delay_coeffs_identity`, `delay_bound_any_order_l1/_l2` (Lemmas/DelayEff); deterministic (l-infinity and l2 Hoelder) for every record, and for unit white Gaussian records "
                "additionally the 8-sigma quantile 8*||c||_2 (failure probability < 1e-13 per segment); passing from per-segment to the averaged "
                "estimate uses mean|X_s| <= sqrt(XX) (`tf_delay_perturbed` is the one-segment statement)",
-               "the NumPy fallbacks are tied to the reference by correspondence (C01) and by the backend-agreement part of this oracle, not by theorem"]
-RULE = ("cases = (mode gain|delay|single|edge|corpus, scheduler, detrend order, window, backend, record kind, gain g or delay d, data layout 2xN|Nx2); "
+               "the NumPy fallbacks are tied to the reference by correspondence (C01) and by the backend-agreement part of this oracle, not by theorem",
+               "size stream only: bins with K > 64(L+4) segments get the explicit accumulation term 4Ku of the K-term means added to the rounding budget "
+               "(`acc_term`; every other case keeps the budget of vk.props._an.bin_tol unchanged)"]
+RULE = ("cases = (mode gain|delay|single|edge|corpus|size, scheduler, detrend order, window, backend, record kind, gain g or delay d, data layout 2xN|Nx2); "
         "every (scheduler x order x window) combination is visited by rotation, records/options drawn from a per-case seed; "
         "distinct by (mode, scheduler, order, window, backend, g-class or d, L of the bin); non-trivial = a bin with XX > 0 whose tolerance is "
-        "decisive (static gain: tolerance < 1e-3|g|; delay: bound < |sin(w d)| so that the sign of the phase is decided)")
+        "decisive (static gain: tolerance < 1e-3|g|; delay: bound < |sin(w d)| so that the sign of the phase is decided); "
+        "size stream: (axis P=K*L|K|L|N|plan, size, below?, order, gain|delay, backend, K, L of the evaluated bin) — on every run all 4 orders x "
+        "{gain, delay} x {numpy, numba} with K*L just beyond each of the (up to four) largest thresholds >= 2^15, K / L / N = 70 001.. for every order, "
+        "one band-limited plan on ~600 000 samples, then thresholds x offsets x axes rotated by the seed within a time share (12 s quick, 60 s when an "
+        "obligation broke, 150 s thorough; bins up to 2.3e6 gathered samples quick, 9.5e6 otherwise); CUDA simulator not run at these sizes")
 
 U = 2.0 ** -53
 NAMES = ["Hxy", "Hyx", "tf", "coh", "cf", "cf_rad", "cf_deg", "Gxy"]
@@ -192,6 +202,19 @@ def delay_eps(xl: np.ndarray, d: int, D, L: int, w: np.ndarray, omega: float, or
 
 def wrap(a: float) -> float:
     return (a + math.pi) % (2 * math.pi) - math.pi
+
+
+def acc_term(s: Dict[str, Any], K: int, L: int) -> float:
+    """SIZE STREAM ONLY (0.0 — i.e. the budget of `_an.bin_tol` unchanged — for every other case): the budget of `_an.bin_tol` models the rounding
+    of ONE segment's windowed DFT, relative size 64u(L+4)·min(L+1, 1/|sin w|) >= 64u(L+4); the statistics are MEANS over the K segments of the bin,
+    and a recursively summed mean of K terms p_s adds at most (K−1)u/(1−(K−1)u)·mean|p_s| + u|mean| <= 2Ku·max|p_s| (Higham, Thm 4.4; the Numba
+    reducer is `np.mean` compiled with fastmath = some summation order, NumPy's is pairwise: both within this bound), |p_s| <= a², b², ab.  For
+    K <= 64(L+4) that term is below the per-segment budget already granted; the size stream alone reaches bins with K >> 64(L+4) (K = 70 001 …
+    2^20 segments of 4 … 64 samples), where it is the dominant term and is added explicitly as 4Ku (M2 = mean|Z−mu|² inherits 2|Z−mu||dmu| + the
+    error of its own mean <= 16Ku(ab)²)."""
+    if "size" not in s or K <= 64 * (L + 4):
+        return 0.0
+    return 4.0 * K * U
 
 
 # ---------------------------------------------------------------- case specification (reproducible from the spec alone)
@@ -341,6 +364,9 @@ def check_gain(P: C.Part, s: Dict[str, Any], res, x: np.ndarray, y: np.ndarray, 
         a = seg_amp(x, D, L, w, order)
         b = seg_amp(y, D, L, w, order) if g != 0 else 1e-300
         tXX, tYY, tXY, _ = _an.bin_tol(L, omega, a, b, order)
+        ak = acc_term(s, len(D), L)
+        if ak:
+            tXX, tYY, tXY = tXX + ak * a * a, tYY + ak * b * b, tXY + ak * a * b
         fwd = (tXY + abs(g) * tXX + 4 * U * abs(g) * a * a) / XX           # |Hxy' − g| <= (|e_XY| + |g||e_XX|)/XX'
         tolH = max(spec_rel * abs(g), fwd)
         errH = abs(complex(H[j]) - g)
@@ -421,6 +447,9 @@ def check_delay(P: C.Part, s: Dict[str, Any], res, x: np.ndarray, y: np.ndarray,
         a = seg_amp(x, D, L, w, order)
         b = seg_amp(y, D, L, w, order)
         tXX, tYY, tXY, _ = _an.bin_tol(L, omega, a, b, order)
+        ak = acc_term(s, len(D), L)
+        if ak:
+            tXX, tYY, tXY = tXX + ak * a * a, tYY + ak * b * b, tXY + ak * a * b
         if XX <= 4 * tXX:
             P.hit("delay.vacuous(XX at rounding level)")
             continue
@@ -476,6 +505,9 @@ def check_backends(P: C.Part, s: Dict[str, Any], results: Dict[str, Any], x: np.
             a = seg_amp(x, r0.D[j], L, w, o["order"])
             b = seg_amp(y, r0.D[j], L, w, o["order"])
             tXX, tYY, tXY, tM2 = _an.bin_tol(L, omega, a, b, o["order"])
+            ak = acc_term(s, len(r0.D[j]), L)
+            if ak:
+                tXX, tYY, tXY, tM2 = tXX + ak * a * a, tYY + ak * b * b, tXY + ak * a * b, tM2 + 4 * ak * (a * b) ** 2
             P.cases += 1
             P.hit("backends.bin")
             for nmf, v0, v1, t in (("XX", r0.XX[j], r1.XX[j], tXX), ("YY", r0.YY[j], r1.YY[j], tYY), ("XY", r0.XY[j], r1.XY[j], tXY),
@@ -534,6 +566,279 @@ def run_spec(P: C.Part, s: Dict[str, Any], backends: List[str], cuda: Optional[C
     if not np.array_equal(keep, data):
         viol(P, "the analysis modified the caller's data", {"mode": s["mode"], "sub": "input-modified"}, s, "?", {})
     check_backends(P, s, results, x, y)
+    if "size" in s:
+        size_hits(P, s, results)
+
+
+# ---------------------------------------------------------------- (5) size thresholds
+# "for all records … all plans": code that gathers / buffers / chunks with a fixed size is right below the size and wrong beyond it (seeded C07g: the
+# NumPy kernels' segment gather takes a shared workspace once a bin has K·L >= 2^20 samples, so the two channels of a cross-spectral bin alias each
+# other and Hxy = 1 whatever the gain or delay — only NumPy, only such bins, i.e. records of >= 5·10^5 samples; every short-record case passes).
+# The constants are read from the CURRENT source (C.mined_sizes) and joined with fixed sizes; for every threshold c the sizes c-1, c, c+1, c+17, 2c+3
+# are reached (a) by the PRODUCT K·L of one bin, in four shapes (L = 500-ish, L ~ sqrt, few long segments, many short segments), (b) by K alone,
+# (c) by L alone, (d) by the record length N alone — through `compute_single_bin` with an explicit L and the overlap that yields the wanted K on a
+# record just long enough (overlaps 0.5 / 0.75 / exactly 0 / 1 - s/L with a shift of s = 1, 2, 3 samples), and through band-limited
+# `compute_spectrum` on a record of ~600 000 samples (Lmin = 500, three bins) — for backend numpy AND numba and their agreement, orders -1 … 2,
+# static gains -2.5 / 0.3 and delays of 1 / 5 samples, with the predicates of (1), (2), (3) unchanged.
+SIZE_FILES = ["speckit/core.py", "speckit/analysis.py"]
+SIZE_FIXED = [2 ** 16, 2 ** 20]
+SIZE_BEYOND = [70_001, 1_100_003]
+SIZE_G = [-2.5, 0.3]
+SIZE_D = [1, 5]
+SIZE_PLAN_N = 600_000
+
+
+def size_thresholds() -> List[int]:
+    try:
+        mined = [int(v) for v in C.mined_sizes(SIZE_FILES)]
+    except Exception:  # noqa  (an unreadable source is the translator's business; the fixed sizes still run)
+        mined = []
+    return sorted(set(mined) | set(SIZE_FIXED))
+
+
+def size_deltas(c: int) -> List[int]:
+    return [c, c + 1, c + 17, 2 * c + 3, c - 1]
+
+
+def size_spec(axis: str, v: int, order: int, kind: str, par: float, t: int, case_seed: int, cap: int, nmax: int,
+              below: bool = False, plain: bool = False) -> Optional[Dict[str, Any]]:
+    """one single-bin case whose K·L (axis "P"), K, L or N is `v` (`below`: the largest product < v with the same L); None if it would cost more
+    than `cap` gathered samples"""
+    r = np.random.default_rng([case_seed, t])
+    d = int(par) if kind == "delay" else 0
+    if d and axis == "K" and v * 64 * d > cap:
+        kind, d, par = "gain", 0, SIZE_G[t % 2]               # a delay needs L >> d: K alone beyond cap/(64 d) is probed with a gain
+    fs = [1.0, 100.0, 1000.0, 2.0][t % 4]
+    win = WINS[(t // 2) % 2]
+    olap: Any = None
+    K: Optional[int] = None
+    if axis == "P":
+        fam = t % 4
+        if fam == 0:
+            L = [500, 512, 640, 1000, 501][(t // 4) % 5]
+        elif fam == 1:
+            L = math.isqrt(v) + (t // 4) % 2
+        elif fam == 2:
+            L = -(-v // (3 + (t // 4) % 4))
+        else:
+            L = 64 * d if d else [16, 33, 48][(t // 4) % 3]
+        if 2 * L > v:
+            L = v // 3
+        L = max(L, 4)
+        K = -(-v // L) - (1 if below else 0)
+    elif axis == "K":
+        K = v
+        L = 64 * d if d else [4, 6, 7, 16, 33][t % 5]
+        while K * L > cap and L > 4 and not d:
+            L = max(4, L // 2)
+    elif axis == "L":
+        L = v
+        K = [1, 2, 7, 40, 3][t % 5] if v < 2000 else [1, 2, 3, 5, 2][t % 5]
+        while K > 1 and K * L > cap:
+            K -= 1
+    elif axis == "N":
+        N = v
+        L = [500, 512, 1000, 333][t % 4] if v >= 4000 else max(4, v // [3, 5, 2, 1][t % 4])
+        L = min(L, N)
+        olap = [0.5, 0.75, 0.0, 0.5][(t // 4) % 4]
+        if N / (1.0 - olap) > cap:
+            olap = 0.0
+        if N > cap or N < 4:
+            return None
+    else:
+        raise ValueError(axis)
+    if axis != "N":
+        if K < 1 or L < 4 or K * L > cap:
+            return None
+        if K == 1:
+            N, olap = L + [0, 0, 3][t % 3], [0.5, 0.0, 0.0][t % 3]
+        else:
+            cand = [L // 2, L // 4, L, 1, 3, L // 3, 2]
+            rot = (t // 4) % len(cand)
+            sh = next((c for c in cand[rot:] + cand[:rot] if c >= 1 and L + (K - 1) * c <= nmax), None)
+            if sh is None:
+                return None
+            N = L + (K - 1) * sh                       # navg = round((N-L)/((1-olap) L) + 1) = K, shift = (N-L)/(K-1) = sh
+            olap = 0.0 if sh == L else 1.0 - sh / L
+    if d and L < 16 * d:
+        kind, d, par = "gain", 0, SIZE_G[t % 2]               # (a delay comparable with the segment says nothing: d << L in the property)
+    rec_seed = int(r.integers(0, 2 ** 62))
+    if kind == "delay":
+        rec = "noise"
+        freq = float(r.uniform(0.8, 2.2)) * fs / (2 * math.pi * d)
+    else:
+        rec = "noise" if plain else ["noise", "red", "tone", "noise", "offset"][t % 5]
+        if rec == "offset" and order < 0:
+            rec = "noise"
+        freq = float(r.uniform(0.03, 0.47)) * fs
+    if L >= 20000:
+        # white noise in a very long segment leaves XX ~ L against a rounding budget ~ L^2·u·L: a tone AT the analysed frequency keeps the case decisive
+        rec = "tone"
+        freq = float(np.random.default_rng(rec_seed).uniform(0.01, 0.4)) * fs         # (the first draw of _an.record(.., "tone"))
+    o: Dict[str, Any] = {"scheduler": "ltf", "order": int(order), "win": win, "olap": olap, "Jdes": 12, "Kdes": 5, "bmin": 1.0, "Lmin": 1}
+    if win == "kaiser":
+        o["psll"] = [60.0, 100.0, 200.0][(t // 4) % 3]
+    s: Dict[str, Any] = {"mode": "single-delay" if kind == "delay" else "single-gain", "idx": 20000 + t, "case_seed": int(case_seed), "N": int(N),
+                         "kind": rec, "fs": fs, "layout": ["2xN", "Nx2"][(t // 3) % 2], "o": o, "rec_seed": rec_seed, "freq": freq, "L": int(L),
+                         "via": ["L", "L", "fres"][t % 3], "wrapper": bool(t % 3 == 1),
+                         "size": {"axis": axis, "v": int(v), "K": None if K is None else int(K), "below": bool(below)}}
+    if kind == "delay":
+        s["d"] = d
+    else:
+        s["g"] = float(par)
+    return s
+
+
+def size_plan_spec(kind: str, par: float, order: int, t: int, case_seed: int, N: int, pos: int, nb: int = 3) -> Optional[Dict[str, Any]]:
+    """band-limited `compute_spectrum` on a long record: the plan of the whole band is made once here to choose a band of `nb` consecutive bins
+    (delay: around 2 pi f d / fs ~ 1..2; gain: the last / a middle / the first bins by `pos`); the band is stored in the spec"""
+    r = np.random.default_rng([case_seed, t])
+    sched = ["vectorized_ltf", "ltf", "new_ltf"][t % 3]       # (lpsd ignores Lmin: bins of 2 … 9 samples on long records)
+    fs = [100.0, 1.0, 1000.0, 2.0][t % 4]
+    win = WINS[t % 2]
+    o: Dict[str, Any] = {"scheduler": sched, "order": int(order), "win": win, "olap": [0.5, "default"][(t // 2) % 2] if win == "hann" else 0.5,
+                         "Jdes": 12, "Kdes": 20, "bmin": 1.0, "Lmin": 500}
+    if win == "kaiser":
+        o["psll"] = [60.0, 100.0][(t // 2) % 2]
+    s: Dict[str, Any] = {"mode": kind, "idx": 21000 + t, "case_seed": int(case_seed), "N": int(N), "kind": "noise" if kind == "delay" else ["noise", "red", "tone"][t % 3],
+                         "fs": fs, "layout": ["2xN", "Nx2"][t % 2], "o": o, "rec_seed": int(r.integers(0, 2 ** 62)), "wrapper": bool(t % 2),
+                         "size": {"axis": "plan", "v": int(N), "K": None, "below": False}}
+    if kind == "delay":
+        s["d"] = int(par)
+    else:
+        s["g"] = float(par)
+    import logging
+    try:
+        logging.disable(logging.CRITICAL)
+        with warnings.catch_warnings():
+            warnings.simplefilter("ignore")
+            pl = _an.analyzer(np.zeros((2, N)), fs, **o).plan()
+        f, Ls = np.asarray(pl["f"], dtype=float), np.asarray(pl["L"])
+    except (Exception, SystemExit):
+        return None
+    finally:
+        logging.disable(logging.NOTSET)
+    if len(f) == 0:
+        return None
+    if kind == "delay":
+        ok = np.nonzero(Ls >= 64 * s["d"])[0]
+        if len(ok) == 0:
+            return None
+        ft = float(r.uniform(0.8, 2.2)) * fs / (2 * math.pi * s["d"])
+        j0 = int(ok[np.argmin(np.abs(f[ok] - ft))])
+    else:
+        j0 = [len(f) - nb, int(r.integers(0, len(f))), 0][pos % 3]
+    j0 = max(0, min(j0, len(f) - nb))
+    j1 = min(j0 + nb - 1, len(f) - 1)
+    o["band"] = [float(f[j0]) * (1 - 1e-12), float(f[j1]) * (1 + 1e-12)]
+    return s
+
+
+def size_hits(P: C.Part, s: Dict[str, Any], results: Dict[str, Any]) -> None:
+    z = s["size"]
+    for be, res in results.items():
+        for j in range(len(res.f)):
+            K, L = len(res.D[j]), int(res.L[j])
+            cls = "KL>=2^20" if K * L >= 2 ** 20 else "KL>=2^16" if K * L >= 2 ** 16 else "KL<2^16"
+            P.hit(f"size.{z['axis']}.{be}.{cls}")
+            if float(res.XX[j]) > 0:
+                P.nontrivial.add(("size", z["axis"], z["v"], bool(z.get("below")), s["o"]["order"], s["mode"], be, K, L))
+        if z.get("K") is not None and len(res.f) == 1:
+            P.hit("size.K-as-planned" if len(res.D[0]) == z["K"] else "size.K-differs-from-planned")
+
+
+def size_stream(P: C.Part, ctx, stats: Dict[str, float], intensive: bool, enough) -> None:
+    import time as _t
+    big = bool(intensive or ctx.thorough)
+    cap = 9_500_000 if big else 2_300_000                     # gathered samples K·L of one bin
+    nmax = 3_000_000 if big else 1_400_000                    # record length
+    wall = max(4.0, min(ctx.time_left() - 70.0, 150.0 if ctx.thorough else 60.0 if intensive else 12.0))
+    heavy_max = 400 if big else 30                            # bins of more than 5·10^5 gathered samples
+    t0 = _t.time()
+    rot = int(ctx.rng.integers(0, 2 ** 20))
+    case_seed = int(ctx.rng.integers(0, 2 ** 62))
+    consts = size_thresholds()
+    bigc = [c for c in sorted(consts, reverse=True) if c >= 2 ** 15][:4]
+    P.notes.append(f"size stream: thresholds {consts} (mined from {SIZE_FILES} + {SIZE_FIXED}), beyond {SIZE_BEYOND}")
+    jobs: List[Tuple[str, Any]] = []          # ("always" | "probe", thunk -> spec)
+    cnt = [rot]
+
+    def nxt() -> int:
+        cnt[0] += 1
+        return cnt[0]
+
+    def par_of(kind: str, k: int) -> float:
+        return SIZE_G[k % 2] if kind == "gain" else SIZE_D[k % 2]
+
+    def job(tier: str, axis: str, v: int, order: int, kind: str, k: int, below: bool = False, plain: bool = False):
+        t = nxt()
+        jobs.append((tier, lambda: size_spec(axis, v, order, kind, par_of(kind, k), t, case_seed, cap, nmax, below, plain)))
+
+    # 1. the PRODUCT K·L at / just above the largest thresholds: every order x {gain, delay}, both backends (8 bins per threshold; the shape, the
+    #    offset from the threshold, g and d rotate with the index and the seed; white records of varying scale, so that the gain tolerance is
+    #    decisive — the other record kinds come with the rotation (6))
+    for c in bigc:
+        dl = size_deltas(c)[:4]
+        for oi, order in enumerate(ORDERS):
+            for ki, kind in enumerate(("gain", "delay")):
+                job("always", "P", dl[(3 * (2 * oi + ki) + rot // 4) % 4], order, kind, oi + ki + rot // 16, plain=True)
+    # 2. sizes well beyond the short-record generator, whatever the miner sees
+    #    (K alone, L alone and N alone = 70 001 + i for EVERY order: a long segment, a long record and many segments are seen by each of the
+    #    2 x 4 cross kernels on every run; one product of 1 100 003)
+    job("always", "P", SIZE_BEYOND[1], ORDERS[rot % 4], "gain", rot)
+    for oi, order in enumerate(ORDERS):
+        job("always", "L", SIZE_BEYOND[0] + oi, order, ["delay", "gain"][(oi + rot) % 2], oi + rot // 2)
+        job("always", "K", SIZE_BEYOND[0] + oi, order, "gain", oi + rot // 2)
+        job("always", "N", SIZE_BEYOND[0] + oi, order, ["gain", "delay"][(oi + rot) % 2], oi + rot // 4)
+    # 3. band-limited compute_spectrum on a long record (all positions, gain and delay, when `big`)
+    for q in range(6 if big else 1):
+        t = nxt()
+        kind = ["delay", "gain"][(q + rot) % 2]
+        Np = SIZE_PLAN_N + [0, 1, 17, 4093][(rot + q) % 4] if q < 4 else 2 ** 20 + [17, 1][q % 2]
+        jobs.append(("always", (lambda t=t, kind=kind, q=q, Np=Np: size_plan_spec(kind, par_of(kind, q + rot // 2), ORDERS[(q + rot // 2) % 4], t,
+                                                                                case_seed, Np, q + rot))))
+    # 4. K alone, L alone, N alone at the fixed sizes
+    #    (N at two offsets, so that one of them is strictly beyond the size; L = 2c+3 is left to the rotation: seconds per case at 2^21)
+    for ci, c in enumerate(sorted(SIZE_FIXED, reverse=True)):
+        dl = size_deltas(c)
+        for ai, (axis, v) in enumerate((("L", dl[rot % 3]), ("N", dl[rot % 4]), ("N", dl[(rot + 2) % 4]), ("K", dl[(rot + 1) % 4]))):
+            job("always", axis, v, ORDERS[(ai + ci + rot // 2) % 4], ["delay", "gain"][(ai + rot) % 2], ai + rot // 4)
+    # 5. the largest product below each large threshold
+    for ci, c in enumerate(bigc):
+        job("always", "P", c, ORDERS[(ci + rot) % 4], ["gain", "delay"][(ci + rot) % 2], ci, below=True)
+    # 6. every threshold x offset x axis, rotated by the seed, while the time share lasts
+    pr = [(axis, v, c) for c in sorted(consts, reverse=True) for v in size_deltas(c) for axis in ("P", "K", "L", "N")]
+    if big:
+        pr += [(axis, v, v) for v in SIZE_BEYOND for axis in ("P", "K", "L", "N")]
+    r0 = (37 * rot) % max(len(pr), 1)
+    for q, (axis, v, c) in enumerate(pr[r0:] + pr[:r0]):
+        job("probe", axis, v, ORDERS[(q + rot) % 4], ["gain", "delay"][(q // 4 + rot) % 2], q // 8 + rot, below=False)
+    heavy = ran = skipped = 0
+    for tier, thunk in jobs:
+        if enough():
+            break
+        el = _t.time() - t0
+        if (tier == "probe" and el > wall) or el > 2.5 * wall or ctx.time_left() < 40:
+            P.notes.append(f"size stream: time share ({wall:.0f} s) used after {ran} of {len(jobs)} cases")
+            break
+        s = thunk()
+        if s is None:
+            skipped += 1
+            continue
+        z = s["size"]
+        est = s["N"] * 3 * 2 if z["axis"] == "plan" else (z["K"] * s["L"] if z["K"] else s["N"] * 2)
+        if est > 500_000:
+            if heavy >= heavy_max:
+                skipped += 1
+                continue
+            heavy += 1
+        P.hit(f"size.case.{z['axis']}.{s['mode']}.order{s['o']['order']}")
+        run_spec(P, s, BACKENDS, None, stats)
+        ran += 1
+        if ran <= 2:
+            P.sample({"op": "oracle-size", **short(s), "size": z})
+    P.notes.append(f"size stream: {ran} cases ({heavy} with more than 5e5 gathered samples per bin), {skipped} beyond the cost cap of this tier, "
+                   f"{_t.time() - t0:.1f} s")
 
 
 # ---------------------------------------------------------------- correspondence
@@ -630,7 +935,46 @@ def edge_stream(P: C.Part, ctx, stats) -> None:
             run_spec(P, s, BACKENDS, None, stats)
 
 
+def _blas_threads(n):
+    """RUN-TIME ONLY (no predicate depends on it): set the thread count of every OpenBLAS loaded in this process, return the previous settings (pass
+    them back to restore).  The NumPy backend's products (K x L)·(L) are memory-bound; on a machine shared with other checks OpenBLAS's spinning
+    worker threads make a 1.2M-sample bin cost 0.3 … 1.6 s instead of 0.06 s (measured at load 17 on 16 cores).  Any failure leaves the
+    libraries as they are."""
+    prev = []
+    try:
+        import ctypes
+        paths = []
+        with open("/proc/self/maps") as fh:
+            for line in fh:
+                q = line.split()[-1]
+                if "openblas" in os.path.basename(q).lower() and q not in paths:
+                    paths.append(q)
+        want = dict(n) if isinstance(n, list) else None
+        for path in paths:
+            if want is not None and path not in want:
+                continue
+            lib = ctypes.CDLL(path)
+            done = False
+            for suf in ("64_", ""):
+                for pre in ("scipy_openblas", "openblas"):
+                    if not done and hasattr(lib, f"{pre}_set_num_threads{suf}") and hasattr(lib, f"{pre}_get_num_threads{suf}"):
+                        prev.append((path, int(getattr(lib, f"{pre}_get_num_threads{suf}")())))
+                        getattr(lib, f"{pre}_set_num_threads{suf}")(int(want[path] if want is not None else n))
+                        done = True
+    except Exception:  # noqa
+        pass
+    return prev
+
+
 def oracle(ctx, intensive: bool = False, hints: List[Dict[str, Any]] = ()) -> C.Part:
+    prev = _blas_threads(1)
+    try:
+        return _oracle(ctx, intensive, hints)
+    finally:
+        _blas_threads(prev)
+
+
+def _oracle(ctx, intensive: bool = False, hints: List[Dict[str, Any]] = ()) -> C.Part:
     import time as _t
     P = C.Part()
     stats: Dict[str, float] = {}
@@ -640,12 +984,6 @@ def oracle(ctx, intensive: bool = False, hints: List[Dict[str, Any]] = ()) -> C.
         cuda = CudaAnalyzer()
     except Exception as ex:  # noqa
         P.notes.append(f"CUDA simulator worker unavailable: {ex!r}"[:160])
-    budget = min(ctx.time_left() - 15, (600.0 if ctx.thorough else 80.0) * (2 if intensive else 1))
-    t_start = _t.time()
-
-    def used() -> float:
-        return (_t.time() - t_start) / max(budget, 1.0)
-
     def cs() -> int:
         return int(ctx.rng.integers(0, 2 ** 62))
 
@@ -656,6 +994,14 @@ def oracle(ctx, intensive: bool = False, hints: List[Dict[str, Any]] = ()) -> C.
     # 0. corpus (D1) — both backends, compute and compute_single_bin
     for s in corpus_specs():
         run_spec(P, s, BACKENDS, None, stats)
+    # 5. size thresholds (own time share, before the clock of the other streams starts: it must run on every run)
+    size_stream(P, ctx, stats, intensive, enough)
+    budget = min(ctx.time_left() - 15, (600.0 if ctx.thorough else 80.0) * (2 if intensive else 1))
+    t_start = _t.time()
+
+    def used() -> float:
+        return (_t.time() - t_start) / max(budget, 1.0)
+
     # 3'. CUDA through the simulator (analyzer level).  The simulator costs ~0.5 s per kernel launch (= per bin), so: single-bin pure delays on
     #     the three cross kernels (orders −1, 0, 1, 2: decides the sign of Im XY) and full `compute_spectrum(backend="cuda")` runs restricted
     #     by `band` to three bins of the plan; each compared with numba and checked against the property
